@@ -8,6 +8,14 @@ claimed={
   text="Every clause of the statement is a postcondition, loop invariant or ghost lemma over contracts on the real functions (SolarUtil.IsLeapYear/GetDaysOfYear/GetDaysOfMonth/GetDaysInYear/GetDaysBetween/IsBefore/GetJulianDay/GetWeek, calendar.NewSolar/NewSolarFromJulianDay/Solar.NextDay/NextHour/NextMonth/NextYear/Subtract/SubtractMinute/IsAfter/IsBefore/GetWeek/GetJulianDay, SolarMonth.Next) against an independent integer Julian-Day-Number specification (Fliegel-Van Flandern, Julian to 1582-10-04, Gregorian from 1582-10-15). All obligations are discharged for all inputs in years 1..9999, all real-valued Julian Days, all step sizes; loops by inductive invariants with termination measures. The Meeus inverse is proved against a witness whose existence is itself proved (lemma ymdOf: every day number is the jdn of a valid date). Lemmas: round trip at one-second resolution, additivity, inverse, agreement of Subtract/SubtractMinute/IsAfter/IsBefore/NextHour/GetWeek with the day count, the 1582 gap.",
   note="float64 modelled as reals with IEEE-754 round-to-nearest error bounds and proved exactness side conditions (no FMA fusion); ints mathematical with generated no-overflow obligations; solvers and the VC generator trusted (must-fail corpus + replay on the real code); stdlib models for math.Round/Ceil. NewSolarFromJulianDay is claimed for JD+0.5 in [1721424, 5373483] (0001-01-01 .. 9999-12-30).",
   ref="DESIGN.md section 4 C04, Appendix A.1-A.3"),
+ "C20":dict(cat="proof",
+  text="Solar.GetXingZuo is proved equal to the table entry selected by a sign function written from the conventional start days; lemmas prove that function total on all 366 month-day pairs, cyclic (each day's sign is the previous day's or its successor) and starting on the conventional days, and its postcondition mentions month and day only. Solar.GetFestivals is executed symbolically (map lookups on the Sprintf keys are matched against the literal keys of the real tables) and a ghost lemma proves, for every valid date in years 1..9999, that each of the 17 fixed-date entries is reported exactly on its month/day, each k-th-weekday entry exactly when weekday and (day-1)/7+1 match, and the last-weekday entry exactly when day+7 exceeds the month length; lemmas kthWeekday/lastWeekday prove there is exactly one such day per month.",
+  note="string results are modelled as finite choices over the library's constant tables (evaluated with the real table contents on every run); fmt.Sprintf %d model; entries added to the festival tables later are not covered by the lemma until it is extended.",
+  ref="DESIGN.md section 4 C20"),
+ "C15":dict(cat="other",
+  text="Proved for all dates in years 1..9999, all seven week starts and all step counts: SolarWeek.GetIndex / GetIndexInYear equal the number of week starts passed (closed form over the weekday of the 1st), GetFirstDay is the most recent week-start day, GetDays are the seven consecutive days from it and contain the date, Next(n,false) moves exactly 7n days and n then -n returns to the start; SolarUtil.GetWeeksOfMonth equals the index of the week holding the last day; SolarMonth.GetDays has exactly the month's length (21 for 1582-10); SolarMonth/SolarSeason/SolarHalfYear/SolarYear Next and GetMonths, with n then -n returning to the start. Level is 'other' because two clauses are not yet under contract (SolarMonth.GetWeeks agreeing with GetWeeksOfMonth, month-separated week stepping); they are listed as not covered in the evidence, not claimed.",
+  note="same trusted base as C04 (float model for math.Ceil(x/7), stdlib list model). Not covered: SolarMonth.GetWeeks, SolarWeek.Next(n,true), GetFirstDayInMonth/GetDaysInMonth.",
+  ref="DESIGN.md section 4 C15, Appendix A.9"),
 }
 na_reason={}
 for p in props:
